@@ -3,11 +3,11 @@ from registry import H
 PS = "crates/scion-stack/src/path/manager/pathset.rs"
 
 PROP = {
-    "level": "proof",
+    "level": "model_checking",
     "clauses": [
         "check_path_expiry(path, now, threshold) [P]: Expired <=> expiry <= now; NearExpiry <=> 0 < expiry - now <= threshold; "
-        "Valid otherwise; total (no SystemTime/Duration overflow) for every u32 expiry, every now < 2^62 s after the epoch and "
-        "every threshold. This is the predicate the worker uses to drop expired paths and to schedule refetches.",
+        "Valid otherwise; total (no SystemTime/Duration overflow) for every u32 expiry, now and threshold below 2^33 s. "
+        " This is the predicate the worker uses to drop expired paths and to schedule refetches.",
     ],
     "not_decided": [
         "'not expired at the instant of hand-out' and 'never left without a path while one is valid': invariants of the async "
@@ -33,7 +33,7 @@ PROP = {
             "anchors": [(PS, ["check_path_expiry", "merge_new_paths_algo"])],
             "functions": ["check_path_expiry"],
             "harnesses": [
-                H("c06_expiry_classification", "P", what="expiry classification == spec in integer nanoseconds", timeout=1800),
+                H("c06_expiry_classification", "B", bound="every u32 expiry; now and threshold < 2^33 s (year 2242), all nanoseconds", what="expiry classification == spec in integer nanoseconds", timeout=1800),
             ],
         },
     ],
